@@ -149,6 +149,23 @@ fn crate_rsp_len(m: &RspM) -> usize {
 
 /// a frameable PDU for `dir`: standard kinds, plus the other function codes the predictors know
 fn gen_frame_pdu(r: &mut Rng, dir: Dir) -> Vec<u8> {
+    if r.below(24) == 0 {
+        // the largest legal PDUs (250..=253 bytes): the 256-byte RTU frame limit is a boundary of its own
+        return match dir {
+            Dir::Req => {
+                let bc = *r.pick(&[240usize, 242, 244, 246]);
+                let mut p = vec![0x10, r.u8(), r.u8(), 0, (bc / 2) as u8, bc as u8];
+                p.extend(r.bytes(bc));
+                p
+            }
+            Dir::Rsp => {
+                let bc = *r.pick(&[248usize, 249, 250, 251]);
+                let mut p = vec![*r.pick(&[1u8, 2, 3, 4, 0x17]), bc as u8];
+                p.extend(r.bytes(bc));
+                p
+            }
+        };
+    }
     if r.below(4) == 0 {
         // codes known to the predictors but not to the PDU codec
         match dir {
@@ -463,6 +480,36 @@ pub fn generate(prop: &str, tier: &str, seed: u64, out: &mut impl Write) {
                 }
                 if i % 4 == 0 && f.len() <= 64 || i % 40 == 0 {
                     w!("#@ C08 {} {} {} {}", if tier == "thorough" && f.len() <= 24 { "fltfull" } else { "flt" }, dname(d), hex_of(&f), r.next() >> 1);
+                }
+            }
+            // frames whose trailer is the CRC of the WRONG span (shorter, longer, shifted), including frames at and
+            // beyond the 256-byte limit: a checksum computed over the wrong bytes must never be accepted
+            for n in [5usize, 6, 40, 200, 250, 251, 252, 253, 254, 255, 256, 257] {
+                for d in [Dir::Req, Dir::Rsp] {
+                    let pdu: Vec<u8> = if d == Dir::Rsp {
+                        if n < 3 || n > 257 { continue; }
+                        let c = n - 2; let mut p = vec![0x03u8, c as u8]; p.extend(r.bytes(c)); p
+                    } else {
+                        if n < 6 || n > 261 { continue; }
+                        let c = n - 6; let mut p = vec![0x10u8, 0, 1, 0, (c / 2) as u8, c as u8]; p.extend(r.bytes(c)); p
+                    };
+                    let mut adu = vec![r.u8()]; adu.extend(&pdu);
+                    let l = adu.len();
+                    let mut spans: Vec<(usize, usize)> = vec![(0, l), (0, l - 1), (0, l - 2), (1, l), (0, l.min(253)), (0, l.min(252)), (0, l.min(254)), (0, l.min(256)), (0, 1), (0, l / 2)];
+                    spans.dedup();
+                    for (a, b) in spans {
+                        let c = crc_wire(&adu[a..b]);
+                        let mut f = adu.clone(); f.extend(c);
+                        for swap in [false, true] {
+                            let mut g = f.clone();
+                            if swap { let k = g.len(); g.swap(k - 1, k - 2); }
+                            let h = hex_of(&g);
+                            w!("rtuext {} {h}", n);
+                            w!("rtuscan {} {h}", dname(d));
+                            w!("rtudec {} {h}", dname(d));
+                            w!("#@ C08 snd {h}");
+                        }
+                    }
                 }
             }
             // long frames for the fault injection (up to 256 bytes)
